@@ -9,7 +9,13 @@ git -C /repo worktree add --detach -f "$wt" HEAD >/dev/null 2>&1 || { echo "work
 python3 - "$wt" "$edit" <<'PY'
 import sys
 wt, edit = sys.argv[1], sys.argv[2]
+import subprocess
 for e in edit.split('@@@'):
+    if e.startswith('REVERT:'):
+        r = subprocess.run(['git', '-C', wt, 'revert', '--no-commit', e[7:]], capture_output=True, text=True)
+        if r.returncode != 0:
+            print("REVERT FAILED", r.stderr); sys.exit(3)
+        continue
     f, old, new = e.split('§', 2)
     p = wt + '/' + f
     s = open(p).read()
